@@ -224,7 +224,7 @@ Fixpoint call_scan (skip : nat) (x : str) : list str :=
 Definition call_matches (x : str) : list str := call_scan 0 x.
 
 (* ------------------------------------------------------------------ SUBCALL_RE *)
-(*  ^(?:if\s{0,}\(.{0,}\)\s{0,})?call\s+(?P<call_chain>(?:.{0,}%\s{0,})?(?:\w+\s{0,}(?:\(\))?))     IGNORECASE|VERBOSE *)
+(*  ^(?:[0-9]+\s+)?(?:if\s{0,}\(.{0,}\)\s{0,})?call\s+(?P<call_chain>(?:.{0,}%\s{0,})?(?:\w+\s{0,}(?:\(\))?))     IGNORECASE|VERBOSE *)
 
 (* case-insensitive literal prefix (the literal is lower case) *)
 Fixpoint starts_ci (p x : str) : bool :=
@@ -289,7 +289,15 @@ Fixpoint last_close_call (y : str) (best : option str) : option str :=
   end.
 
 (* SUBCALL_RE.search(x)["call_chain"]  (the pattern is anchored at the start of the string) *)
-Definition subcall_match (x : str) : option str :=
+(* (?:[0-9]+\s+)?  : an optional statement label *)
+Definition strip_label (x : str) : str :=
+  let (d, x1) := span is_digit x in
+  if is_nil d then x else
+  let (w, x2) := span is_space x1 in
+  if is_nil w then x else x2.
+
+(* the pattern behind the optional label *)
+Definition subcall_core (x : str) : option str :=
   let with_if :=
     if starts_ci (s "if") x then
       match snd (span is_space (skipn 2 x)) with
@@ -301,6 +309,8 @@ Definition subcall_match (x : str) : option str :=
   | Some ch => Some ch
   | None => call_kw x
   end.
+
+Definition subcall_match (x : str) : option str := subcall_core (strip_label x).
 
 (* ------------------------------------------------------------------ chain normalisation *)
 (* CALL_AND_WHITESPACE_RE.sub("", text) : drop every "()" and every white-space character *)
@@ -325,22 +335,23 @@ Fixpoint split_on (sep : ascii) (cur : str) (x : str) : list str :=
 Definition norm_chain (text : str) : chain := split_on pct [] (lower (strip_cw text)).
 
 (* ------------------------------------------------------------------ Associations *)
-Definition batch := list (str * chain).          (* in insertion order; a later equal key overwrites *)
+Definition batch := list (str * option chain).   (* in insertion order; a later equal key overwrites;
+                                                    None: the name stands for the value of an expression *)
 Definition assocs := list batch.                 (* _batches, oldest first *)
 
-Fixpoint batch_get (k : str) (b : batch) (found : option chain) : option chain :=
+Fixpoint batch_get (k : str) (b : batch) (found : option (option chain)) : option (option chain) :=
   match b with
   | [] => found
   | (k', v) :: b' => batch_get k b' (if str_eqb k k' then Some v else found)
   end.
 
 (* __getitem__/__contains__: newest batch first *)
-Fixpoint assocs_get_rev (k : str) (rb : list batch) : option chain :=
+Fixpoint assocs_get_rev (k : str) (rb : list batch) : option (option chain) :=
   match rb with
   | [] => None
   | b :: rb' => match batch_get k b None with Some v => Some v | None => assocs_get_rev k rb' end
   end.
-Definition assocs_get (k : str) (a : assocs) : option chain := assocs_get_rev k (rev a).
+Definition assocs_get (k : str) (a : assocs) : option (option chain) := assocs_get_rev k (rev a).
 
 (* str.split("=>") *)
 Fixpoint split_arrow (cur : str) (x : str) : list str :=
@@ -354,16 +365,19 @@ Fixpoint split_arrow (cur : str) (x : str) : list str :=
     end
   end.
 
-Definition subst_head (a : assocs) (ch : chain) : chain :=
+(* the chain with a leading ASSOCIATE name replaced; None: the head is the value of an expression *)
+Definition subst_head (a : assocs) (ch : chain) : option chain :=
   match ch with
-  | h :: t => match assocs_get h a with Some v => v ++ t | None => ch end
-  | [] => ch
+  | h :: t => match assocs_get h a with Some (Some v) => Some (v ++ t) | Some None => None | None => Some ch end
+  | [] => Some ch
   end.
 
 Definition space : ascii := " "%char.
-(* old.lower().replace("()", "").replace(" ", "").split("%") *)
-Definition assoc_target (old : str) : chain :=
-  split_on pct [] (filter (fun c => negb (Ascii.eqb c space)) (replace [lpar; rpar] [] (lower old))).
+(* old.lower().replace("()", "").replace(" ", "") ; a designator  \w+(?:%\w+){0,}  is split at "%",
+   anything else is an expression *)
+Definition assoc_target (old : str) : option chain :=
+  let parts := split_on pct [] (filter (fun c => negb (Ascii.eqb c space)) (replace [lpar; rpar] [] (lower old))) in
+  if forallb (fun p => negb (is_nil p) && forallb is_word p) parts then Some parts else None.
 
 (* add_batch: None = ValueError (an item that is not "new => old") *)
 Fixpoint build_batch (a : assocs) (items : list str) (cur : batch) : option batch :=
@@ -371,7 +385,9 @@ Fixpoint build_batch (a : assocs) (items : list str) (cur : batch) : option batc
   | [] => Some cur
   | it :: items' =>
     match split_arrow [] it with
-    | [new; old] => build_batch a items' (cur ++ [(lower (strip new), subst_head a (assoc_target old))])
+    | [new; old] =>
+      build_batch a items' (cur ++ [(lower (strip new),
+                                     match assoc_target old with Some ch => subst_head a ch | None => None end)])
     | _ => None
     end
   end.
@@ -403,14 +419,14 @@ Definition chain_texts (line : str) : list str :=
   end.
 
 Definition raw_calls (a : assocs) (line : str) : list chain :=
-  map (fun t => subst_head a (norm_chain t)) (chain_texts line).
+  flat_map (fun t => match subst_head a (norm_chain t) with Some ch => [ch] | None => [] end) (chain_texts line).
 
 (* the filter-and-append loop *)
 Fixpoint append_calls (calls : list chain) (new : list chain) : list chain :=
   match new with
   | [] => calls
   | ch :: new' =>
-    if str_in (last_of ch) INTRINSICS || str_in (last_of ch) (map last_of calls)
+    if str_in (last_of ch) INTRINSICS || existsb (list_eqb str_eqb ch) calls
     then append_calls calls new'
     else append_calls (calls ++ [ch]) new'
   end.
@@ -421,7 +437,7 @@ Definition add_calls (a : assocs) (calls : list chain) (line : str) : list chain
 (* ------------------------------------------------------------------ the cascade *)
 Definition is_digit_b (c : ascii) : bool := is_digit c.
 
-(* FORMAT_RE.match:  ^[0-9]+\s+format\s+\(.{0,}\)  *)
+(* FORMAT_RE.match:  ^[0-9]+\s+format\s{0,}\(.{0,}\)  *)
 Definition format_re (x : str) : bool :=
   let (d, x1) := span is_digit_b x in
   if is_nil d then false else
@@ -429,7 +445,6 @@ Definition format_re (x : str) : bool :=
   if is_nil w1 then false else
   if starts_ci (s "format") x2 then
     let (w2, x3) := span is_space (skipn 6 x2) in
-    if is_nil w2 then false else
     match x3 with
     | c :: x4 =>
       if Ascii.eqb c lpar then
@@ -440,26 +455,38 @@ Definition format_re (x : str) : bool :=
     end
   else false.
 
-(* ARITH_GOTO_RE.search:  go\s{0,}to\s{0,}\([0-9,\s]+\)  anywhere in the line *)
-Definition goto_here (x : str) : bool :=
+(* ARITH_GOTO_RE:  \bgo\s{0,}to\s{0,}\([0-9,\s]+\)  — length of a match at the head of x *)
+Definition goto_here (x : str) : option nat :=
   if starts_ci (s "go") x then
-    let x1 := snd (span is_space (skipn 2 x)) in
+    let (w1, x1) := span is_space (skipn 2 x) in
     if starts_ci (s "to") x1 then
-      match snd (span is_space (skipn 2 x1)) with
-      | c :: x2 =>
+      let (w2, x2) := span is_space (skipn 2 x1) in
+      match x2 with
+      | c :: x3 =>
         if Ascii.eqb c lpar then
-          let (body, x3) := span (fun d => is_digit d || Ascii.eqb d comma || is_space d) x2 in
-          if is_nil body then false else
-          match x3 with d :: _ => Ascii.eqb d rpar | [] => false end
-        else false
-      | [] => false
+          let (body, x4) := span (fun d => is_digit d || Ascii.eqb d comma || is_space d) x3 in
+          if is_nil body then None else
+          match x4 with
+          | d :: _ => if Ascii.eqb d rpar then Some (2 + length w1 + 2 + length w2 + 1 + length body + 1) else None
+          | [] => None
+          end
+        else None
+      | [] => None
       end
-    else false
-  else false.
-Fixpoint arith_goto_re (x : str) : bool :=
+    else None
+  else None.
+
+(* ARITH_GOTO_RE.search(line) and the replacement of the match by "goto": the label list of a
+   computed GO TO is dropped, the rest of the statement stays.  [prev_word]: the character in front
+   is a word character (no word boundary there). *)
+Fixpoint goto_rewrite (prev_word : bool) (pre : str) (x : str) : option str :=
   match x with
-  | [] => false
-  | _ :: x' => goto_here x || arith_goto_re x'
+  | [] => None
+  | c :: x' =>
+    match (if prev_word then None else goto_here x) with
+    | Some n => Some (pre ++ s "goto" ++ skipn n x)
+    | None => goto_rewrite (is_word c) (pre ++ [c]) x'
+    end
   end.
 
 (* optional construct name  (\w+\s{0,}:)?  then \s{0,}  *)
@@ -533,9 +560,10 @@ Definition line_step (st : assocs * list chain) (line : str) : option (assocs * 
     | [] => None
     end
   | None =>
-    if arith_goto_re line then Some st
-    else if call_gate line then Some (a, add_calls a calls line)
-    else Some st
+    match goto_rewrite false [] line with
+    | Some line' => if call_gate line' then Some (a, add_calls a calls line') else Some st
+    | None => if call_gate line then Some (a, add_calls a calls line) else Some st
+    end
   end.
 
 Definition stmt_step (st : assocs * list chain) (stmt : str) : option (assocs * list chain) :=
@@ -554,10 +582,10 @@ Definition unit_raw_calls (stmts : list str) : option (list chain) :=
 (* ------------------------------------------------------------------ resolution (correlate) *)
 (* what a label of a call chain can denote *)
 Inductive entity :=
-  | EFunc (id : str) (rettype : str) (has_types : bool)
-                               (* has a retvar: function (identity; result type string after strip_type;
-                                  whether the function object already carries all_types, i.e. has
-                                  been correlated — otherwise reading it raises AttributeError) *)
+  | EFunc (id : str) (rettype : str)
+                               (* has a retvar: function (identity; result type string after strip_type,
+                                  looked up in the function's table, or its host's as long as the
+                                  function has none) *)
   | EProc (id : str)           (* subroutine, interface, bound procedure, ... : recorded, no context *)
   | EVar (ty : str) (ptypes : bool)   (* variable (type string after strip_type; parent has all_types) *)
   | EType (name : str).        (* derived type *)
